@@ -70,6 +70,7 @@ class Cfg:
         self.multiline = True
         self.multiline_pct = 12
         self.nested_arg_pct = 30
+        self.no_user_push = False
         self.nested_defs = False  # nested function definitions: open finding F-D36 (register clash)
         self.d5_args = False  # pass bare names of writable globals as arguments (open finding F-D5 shape):
         #                       only for oracles that do not compare with the source interpreter
@@ -91,6 +92,7 @@ class ProgGen:
         self.no_calls = 0  # >0 inside for-list bodies
         self.cur_func = None
         self.consts_used = set()
+        self.named_lists = []  # (name, length) of module-level constant lists / tuples
 
     # ---------------- draws
     def n(self, lo, hi):
@@ -158,9 +160,14 @@ class ProgGen:
         if k < 66:
             self.features.add("minmax")
             return f"{self.choice(['max', 'min'])}({self.expr(vars_, d + 1)}, {self.expr(vars_, d + 1)})"
-        if k < 72:
+        if k < 70:
             self.features.add("math1")
             return f"{self.choice(['abs', 'floor', 'ceil', 'round', 'trunc'])}({self.expr(vars_, d + 1)})"
+        if k < 72 and self.cfg.intrinsics:
+            self.features.add("math2")
+            inner = self.atom(vars_)
+            return self.choice([f"sqrt(abs({inner}))", f"sin({inner})", f"cos({inner})", f"atan2({inner}, 2)", f"log(abs({inner}) + 1)",
+                                f"exp(min({inner}, 3))", f"({inner} ** 2)", f"move({inner})", f"add({inner}, 1)", f"lerp({inner}, 10, 0.5)"])
         if k < 79:
             self.features.add("ifexp")
             self.in_pure += 1
@@ -173,6 +180,12 @@ class ProgGen:
             return f"({self.cond(vars_, d + 1)})"
         if k < 88 and self.cfg.lists:
             iv = [v for v in vars_ if v in self.intvars]
+            if iv and self.named_lists and self.chance(40):
+                nm, ln = self.choice(self.named_lists)
+                ok = [v for v in iv if self.intvar_bound[v] <= ln]
+                if ok:
+                    self.features.add("named-list-dyn-index")
+                    return f"{nm}[{self.choice(ok)}]"
             if iv:
                 self.features.add("const-list-dyn-index")
                 i, hi = self.choice(iv), None
@@ -280,7 +293,8 @@ class ProgGen:
         return f"{tgt} = {self.expr(vars_)}"
 
     def effect_stmt(self):
-        return self.choice(["yield_()", "yield_()", "sleep(1)", "sleep(0.5)"])
+        return self.choice(["yield_()", "yield_()", "sleep(1)", "sleep(0.5)", "d4.Mode = DisplayMode.Celsius", "d4.Setting = Color.Blue",
+                            "s(d5, LogicType.Setting, 3)", "sb(HASH(\"StructureWallLight\"), LogicType.On, 1)", "pass"])
 
     def block(self, vars_, ind, depth, in_func, n=None, in_loop=False):
         out = []
@@ -300,7 +314,10 @@ class ProgGen:
                     v = self.choice(wv)
                     if self.chance(50):
                         self.features.add("augassign")
-                        out.append(pad + f"{v} {self.choice(['+=', '-=', '*='])} {self.expr(vars_)}")
+                        if self.chance(20):
+                            out.append(pad + f"{v} {self.choice(['/=', '%='])} {self.choice(['2', '4', '3'])}")
+                        else:
+                            out.append(pad + f"{v} {self.choice(['+=', '-=', '*='])} {self.expr(vars_)}")
                     else:
                         e = self.expr(vars_)
                         out.append(pad + f"{v} = {e}")
@@ -348,6 +365,12 @@ class ProgGen:
                 self.features.add(kw)
                 out.append(pad + kw)
                 break
+            elif k == 99 and self.cfg.own_stack and not self.cfg.no_user_push:
+                self.features.add("user-push-pop")
+                v = self.fresh()
+                out.append(pad + f"push({self.expr(vars_)})")
+                out.append(pad + f"{v} = {self.choice(['pop()', 'pop()', 'peek() + pop() * 0'])}")
+                out.append(pad + f"{self.choice(WRITES)} = {v} + 1")
             else:
                 out.append(pad + self.effect_stmt())
         return out
@@ -434,7 +457,15 @@ class ProgGen:
             items = ", ".join(self.choice(['HASH("O2")', 'HASH("N2")', 'STR("AB")', "3"]) for _ in range(n))
         else:
             items = ", ".join(self.const() for _ in range(n))
-        out = [pad + f"for {e} in [{items}]:"]
+        if self.named_lists and self.chance(30):
+            self.features.add("for-over-named-list")
+            out = [pad + f"for {e} in {self.choice(self.named_lists)[0]}:"]
+        else:
+            out = [pad + f"for {e} in [{items}]:"]
+        if self.chance(25):
+            # the loop value used as a device name hash (README: for_list example)
+            self.features.add("list-value-as-batch-name")
+            out.append(pad + f"    ConsoleLED5s[{e}].Setting = GasSensors[{e}].Pressure.Average + 1")
         self.no_calls += 1
         try:
             out += self.block(vars_ + [e], ind + 1, self.cfg.max_depth - 1, in_func, in_loop=True)
@@ -544,6 +575,13 @@ class ProgGen:
             else:
                 L.append(f"{g} = {self.const() if self.chance(40) else self.read()}")
                 self.frozen.add(g)
+        if cfg.lists and self.chance(35):
+            for li in range(self.n(1, 2)):
+                ln = self.n(1, 5)
+                items = ", ".join(self.const() for _ in range(ln))
+                brk = ("(", ")") if ln > 1 and self.chance(25) else ("[", "]")
+                L.append(f"arr{li} = {brk[0]}{items}{brk[1]}")
+                self.named_lists.append((f"arr{li}", ln))
         nf = self.n(0, cfg.max_funcs)
         for fi in range(nf):
             L += self.function(fi, globs)
